@@ -18,7 +18,7 @@ from .values import Values
 SPEC_FILES = ["TdfLayout.tla", "TdfCodec.tla", "TdfCodecMC.tla"]
 ALL_KINDS = ["Data3D", "EMG", "ForceTorque3D", "ForcePlatformsData", "ForcePlatformsCalibration", "Data2D",
              "CalibrationData", "OpticalSetup", "Events", "Header", "Entry"]
-INVS = {"C01": ["RoundTrip"], "C02": ["SizeAgree"], "C05": ["RleFieldsOK"], "C06": ["Canon", "RoundTrip"],
+INVS = {"C01": ["RoundTrip"], "C02": ["SizeAgree", "ShapeSizeAgree"], "C05": ["RleFieldsOK", "RunsSetAgree"], "C06": ["Canon", "RoundTrip"],
         "C12": ["ScrambleInv"], "C14": ["MutantsDiffer"]}
 
 
@@ -299,6 +299,49 @@ def _where(a, b, path=""):
     return f"{path}: {a} vs {b}"
 
 
+def real_sized(run, prop, tier, seed, vecs):
+    """M2 / M3: the exported layout on real-sized data; returns the number of cases"""
+    from . import bigdata
+    n = 0
+    if prop == "C14":
+        return 0
+    L = bigdata.layout()
+    # the layout interpreter is derived from the specification: its encoding of every
+    # enumerated block must be the packed specification tokens (else the machinery is broken)
+    for vec in vecs:
+        if vec["kind"] in ("Header",):
+            continue
+        vals = Values(seed)
+        plain = bigdata.to_plain(L, vec["kind"], vec["b"], vec["fmt"], vals)
+        if L.encode(vec["kind"], plain, vec["fmt"]) != ab.pack(vec["toks"], vals):
+            raise common.Machinery(f"layout interpreter disagrees with TLC on {vec['kind']} {vec['b']}")
+        v2, pos, _ = L.decode(vec["kind"], ab.pack(vec["toks"], vals), vec["fmt"])
+        if v2 != plain or pos != vec["size"]:
+            raise common.Machinery(f"layout interpreter decode disagrees with TLC on {vec['kind']} {vec['b']}")
+    run.cov["layout_interpreter_cross_validated_on"] = len(vecs)
+    count = 45 if tier == "quick" else 450
+    bad, nobs, res = bigdata.random_campaign(seed, count, {prop})
+    n += count
+    if res is not None:
+        run.cov["tlc_runs"].append(dict(name="OBS random large blocks (TdfCodecObs)", observations=nobs, **res.summary()))
+    findings = list(bad)
+    if prop in ("C02", "C05", "C06", "C12"):
+        cb, nc, cres, _ = bigdata.capture_campaign({prop}, scramble_seed=seed)
+        n += nc
+        run.cov["tlc_runs"].append(dict(name="OBS BTS capture (TdfCodecObs)", observations=nc, **cres.summary()))
+        run.cov["capture_blocks"] = nc
+        findings += cb
+    if prop in ("C06", "C12"):
+        hb, nh = bigdata.header_campaign({prop}, seed)
+        n += nh
+        findings += hb
+    for clause, detail, rp in findings:
+        if clause.startswith(prop + ":") and len(run.violations) < 5:
+            run.violation(f"{clause} {detail}", rp)
+    run.cov["real_sized_cases"] = n
+    return n
+
+
 def check(prop, tier, seed, replay=None):
     run = common.Run(prop, tier, seed)
     run.assumptions += [
@@ -309,10 +352,19 @@ def check(prop, tier, seed, replay=None):
     mutants = prop == "C14"
     if replay:
         rp = json.load(open(replay))["replay"]
-        bad = evaluate(rp["vector"], rp["r"], {prop}, rp.get("style", 0), morph_from=rp.get("morph_from"))
+        if rp.get("kind") in ("bigblock", "capture", "header"):
+            from . import bigdata
+            if rp["kind"] == "bigblock":
+                bad = [(c, d) for c, d, _ in bigdata.random_campaign_one(rp, {prop})]
+            elif rp["kind"] == "capture":
+                bad = [(c, d) for c, d, _ in bigdata.capture_campaign({prop})[0]]
+            else:
+                bad = [(c, d) for c, d, _ in bigdata.header_campaign({prop}, seed)[0]]
+        else:
+            bad = evaluate(rp["vector"], rp["r"], {prop}, rp.get("style", 0), morph_from=rp.get("morph_from"))
         run.cov["evaluations"] = 1
         run.cov["distinct_nontrivial"] = 2
-        run.sample(dict(kind=rp["vector"]["kind"], b=rp["vector"]["b"]))
+        run.sample(dict(kind=rp.get("vector", {}).get("kind", rp.get("kind")), b=rp.get("vector", {}).get("b")))
         for clause, detail in bad:
             if clause.startswith(prop + ":"):
                 run.violation(f"{clause} {detail}", rp)
@@ -378,6 +430,7 @@ def check(prop, tier, seed, replay=None):
                               dict(kind="codec", vector=vec, morph_from=src["b"], r=rs[0], style=i % 6, clauses=mine))
     n_eval += n_morph
     run.cov["in_place_edit_vectors"] = n_morph
+    n_eval += real_sized(run, prop, tier, seed, vecs)
     run.cov["traces_validated_against_impl"] = n_eval
     run.cov["evaluations"] = n_eval
     run.cov["distinct_nontrivial"] = nontrivial
